@@ -4810,3 +4810,111 @@ fn main() {
 
     run.finish();
 }
+
+// ---------------------------------------------------------------------------------------------
+// Engine E3 (libFuzzer): entry used by `fuzz/fuzz_targets/tlv.rs` — same oracle, other driver
+// ---------------------------------------------------------------------------------------------
+
+/// Coverage-guided entry: the whole input is handed to the hostile-bytes oracle. `Err` is
+/// `"<signature>: <detail>"`; a panic of rs-matter propagates (libFuzzer reports it as a crash).
+pub fn fuzz_entry(data: &[u8]) -> Result<(), String> {
+    // The probes format and re-scan every container at every nesting level, so their cost grows
+    // with (bytes x nesting depth): 1000 nested containers in 2 KiB take minutes. Stay inside the
+    // domain the oracle was written for (the generators nest up to 64 deep) and bound the work.
+    let (depth, area) = fuzz_nesting(data);
+    if depth > FUZZ_MAX_DEPTH || area > FUZZ_MAX_AREA {
+        return Ok(());
+    }
+    tlv_bytes_oracle(data)
+}
+
+/// Deepest nesting accepted by `fuzz_entry` (as in `tree_strategy`/`chain_strategy`).
+pub const FUZZ_MAX_DEPTH: usize = 64;
+/// Largest accepted sum, over all bytes, of the nesting depth at that byte.
+pub const FUZZ_MAX_AREA: usize = 16 * 1024;
+
+/// A tolerant, linear walk over the element grammar of Appendix A (independent of rs-matter):
+/// returns (deepest container nesting, sum over all scanned bytes of the nesting depth there).
+/// Stops at the first byte that cannot start an element or at a length field that points
+/// outside the input (no correct reader can go past either).
+fn fuzz_nesting(data: &[u8]) -> (usize, usize) {
+    let (mut pos, mut depth, mut max_depth, mut area) = (0usize, 0usize, 0usize, 0usize);
+    while let Some(&ctl) = data.get(pos) {
+        let ty = ctl & 0x1f;
+        let head = 1 + tag_size(ctl);
+        let size = match ty {
+            0x18 => {
+                depth = depth.saturating_sub(1);
+                1
+            }
+            0x15..=0x17 => {
+                depth += 1;
+                max_depth = max_depth.max(depth);
+                head
+            }
+            0x00 | 0x04 => head + 1,
+            0x01 | 0x05 => head + 2,
+            0x02 | 0x06 | 0x0a => head + 4,
+            0x03 | 0x07 | 0x0b => head + 8,
+            0x08 | 0x09 | 0x14 => head,
+            0x0c..=0x13 => {
+                let w = 1usize << ((ty - 0x0c) & 3);
+                let mut b = [0u8; 8];
+                match data.get(pos + head..pos + head + w) {
+                    Some(f) => b[..w].copy_from_slice(f),
+                    None => break,
+                }
+                match usize::try_from(u64::from_le_bytes(b)).ok().and_then(|l| l.checked_add(head + w)) {
+                    Some(n) => n,
+                    None => break,
+                }
+            }
+            _ => break,
+        };
+        let Some(next) = pos.checked_add(size).filter(|n| *n <= data.len()) else {
+            break;
+        };
+        area = area.saturating_add(depth.saturating_mul(size));
+        pos = next;
+    }
+    (max_depth, area)
+}
+
+/// Seed inputs for the `tlv` fuzz target (used by `src/bin/mkcorpus.rs`): reference encodings of
+/// generated trees and wire structures (legal), the same with the hostile operations applied, and
+/// a few literal vectors (inputs of recorded findings, minimal containers).
+pub fn fuzz_seeds(n: usize, seed: u64) -> Vec<(String, Vec<u8>)> {
+    use proptest::strategy::ValueTree;
+    use proptest::test_runner::{Config, RngAlgorithm, TestRng, TestRunner};
+    let mut s = [0u8; 32];
+    s[..8].copy_from_slice(&seed.to_le_bytes());
+    let mut runner = TestRunner::new_with_rng(Config::default(), TestRng::from_seed(RngAlgorithm::ChaCha, &s));
+    let strategy = hostile_case();
+    let mut out: Vec<(String, Vec<u8>)> = Vec::new();
+    for _ in 0..n {
+        let Ok(tree) = strategy.new_tree(&mut runner) else { continue };
+        let case = tree.current();
+        let kind = match &case.base {
+            Base::Tree(_) => "tree",
+            Base::Wire(_) => "wire",
+        };
+        let legal = base_bytes(&case.base);
+        let (hostile, label) = apply_ops(legal.clone(), &case.ops);
+        out.push((format!("legal-{kind}"), legal));
+        out.push((format!("hostile-{kind}-{label}"), hostile));
+    }
+    for lit in [
+        "1518",
+        "1618",
+        "1718",
+        "152400011818",
+        "15300101012402011818",
+        "153601050105021818",
+        "15350124000118370124000118182c02026869181818",
+        "d5ffffffffffffffff2c01ff00000000000000",
+        "1533010000000000000000",
+    ] {
+        out.push(("literal".to_string(), vh::util::unhex(lit)));
+    }
+    out
+}
